@@ -1,3 +1,4 @@
 import CpProps.C10
 import CpProps.C11
+import CpProps.C11b
 import CpProps.C17
